@@ -337,7 +337,7 @@ def check_known_finding(kf):
     outs = run_cases(cases)
     if outs is None:
         return dict(reproduces=True, detail='replay crate unavailable (%s); finding assumed still open' % build.error[-300:])
-    pred = {'C01-W1': viol_C01_any}.get(kf['id'])
+    pred = {'C01-W1': viol_C01_any, 'C03-W1': viol_C01_any}.get(kf['id'])
     det = []
     rep = False
     for c, o in zip(cases, outs):
